@@ -127,4 +127,4 @@ a, b = "<!-- SEED-TABLE-BEGIN -->", "<!-- SEED-TABLE-END -->"
 if a in s:
     s = s[:s.index(a) + len(a)] + "\n" + table + "\n" + s[s.index(b):]
     open("DESIGN.md", "w").write(s)
-print(table)
+print("%d seeds in the table" % len(rows))
